@@ -38,7 +38,7 @@ VARIANTS = {"g": render.VARIANTS["g"], "d": {}}
 
 
 def profile_for(run):
-    p = {"p_move": 0.22, "p_backward_at": 0.3}
+    p = {"p_move": 0.22, "p_backward_at": 0.3, "p_describe": 0.08}
     if run.tier == "thorough":
         p["max_depth"] = 4
     return p
